@@ -75,6 +75,8 @@ pub fn inject(c: &mut Cluster, from: usize, node: usize, svc: u8, gen: u64) {
         SVC_MEMPOOL => *r.pick(&[0u32, 1, 2, 3, 4, 5, 6, 30, 30, 31, 32, 33, 34, 34, 35, 36]),
         _ => *r.pick(&[0u32, 1, 2, 3, 40, 40, 41]),
     };
+    // A scripted kind: the generator put it into the upper bits of `gen`.
+    let kind = if gen >> 40 != 0 { (gen >> 40) as u32 } else { kind };
     let recent: Vec<Vec<u8>> = c.recent_frames.get(&svc).cloned().unwrap_or_default();
     let k = match conn(c, from, node, svc) {
         Some(k) => k,
@@ -235,6 +237,17 @@ pub fn inject(c: &mut Cluster, from: usize, node: usize, svc: u8, gen: u64) {
         34 => {
             let short = base64::encode(&vec![9u8; r.range(0, 31) as usize]);
             frame = Some(batch_request_with_origin_string(&[Digest::default()], &short));
+        }
+        37 => {
+            // A well-formed batch followed by trailing bytes (bincode ignores them): a
+            // non-canonical encoding, whose hash differs from that of its re-encoding.
+            let tx = Cluster::tx_bytes(24, 9, 0x5eed_0000_0000 + (gen & 0xffff));
+            let mut v = bincode::serialize(&MempoolMessage::Batch(vec![tx])).unwrap();
+            for _ in 0..r.range(1, 8) {
+                v.push(r.next() as u8);
+            }
+            c.obs.lock().unwrap().probe("hostile.batch-with-trailing-bytes");
+            frame = Some(v);
         }
         41 => frame = Some((0..(1 << 20)).map(|i| (i as u8).wrapping_mul(31)).collect()),
         _ => {}
